@@ -277,3 +277,16 @@ pub fn seg_seg_dist2(s0: P, s1: P, t0: P, t1: P) -> Q {
     }
     pt_seg_dist2(s0, t0, t1).min(pt_seg_dist2(s1, t0, t1)).min(pt_seg_dist2(t0, s0, s1)).min(pt_seg_dist2(t1, s0, s1))
 }
+
+/// exact 2^e as f64 (no libm: `powi` has unspecified precision, and Miri perturbs it on purpose)
+pub fn pow2(e: i32) -> f64 {
+    if e >= -1022 && e <= 1023 {
+        f64::from_bits(((1023 + e) as u64) << 52)
+    } else if e < -1022 && e >= -1074 {
+        f64::from_bits(1u64 << (e + 1074))
+    } else if e > 1023 {
+        f64::INFINITY
+    } else {
+        0.0
+    }
+}
